@@ -27,9 +27,42 @@ CHECKS['C06'] = dict(
 CHECKS['C01']['smt'] = True
 CHECKS['C15']['smt'] = True
 
+CHECKS['C02'] = dict(
+    smt=True,
+    text='Provenance version of the segment contract: the body parts of the yielded segments are proved (all paths, every '
+         'capacity, lengths up to 3/6 capacities; loop step for ALL lengths by SMT) to be contiguous source ranges covering '
+         'the body exactly once in order, with predecessor/successor/EFLR/type bits as the standard requires; the real '
+         'write_logical_records is proved to wrap every segment in its own visible record in generator order (wiring, all '
+         'record lengths) and a monolithic two-record run at small bounds confirms the composition; the per-class record '
+         'type byte cache is checked for every ordered pair of record classes.',
+    note='Byte equality rests on Python bytes slicing/concatenation (trusted): the solver proves *which* ranges go where. '
+         'Two records per run; more follow from the per-record structure of the loop (ob_wiring).')
+CHECKS['C10'] = dict(
+    text='One step of BufferedOutput from an arbitrary pre-state (buffer up to 2**33, any fill) + final flush: bytes reach '
+         'the writer once, in order, every flush <= chunk and on a record boundary, total_size exact; ByteWriter over a fake '
+         'file system: first write truncates prior content, later ones append; chunk-size check over all integers; wiring + '
+         'monolithic glue with symbolic output chunk size.',
+    note='Independence from input_chunk_size is the chunk-tiling obligation of C03/C11 (not repeated here). Float chunk sizes and '
+         'the OS honouring wb/ab are outside the solver; RopeArray/FakeFS are validated against bytearray / a real file each run.')
+CHECKS['C16'] = dict(
+    text='NoFormatFrameData._make_body_bytes proved to be reference || payload exactly (symbolic reference fields, payload '
+         'length 0..40000 / 2**30, bytes/bytearray/str, strict ascii at the call site); short symbolic text equals its ASCII '
+         'bytes; call order of payloads over two objects is preserved for all 24 add orders x set namings (exhaustive).',
+    note='Payload byte values are abstract (range provenance). Survival through segmentation is C02. Each witness is replayed '
+         'through DLISFile.write and the strict reader.')
+CHECKS['C04'] = dict(
+    smt=True,
+    text='For every attribute signature found by introspection (thorough: every one of the 169 attribute sites of the 21 object '
+         'types) the real setter + EFLRSet._make_body_bytes output is parsed by an independent RP66 component grammar written in '
+         'solver-friendly arithmetic: set component, template labels, object headers with copy numbers, per-attribute count / '
+         'representation code / units / values, absent markers, nothing left over; symbolic multiplicity ([] .. nested), units, '
+         'symbolic integer values over the full code range and symbolic short text.',
+    note='One assigned attribute per object (components are concatenated independently); floats and date-times are concrete '
+         'examples; objects are constructed outside tracing from concrete arguments; kint/kfloat shims justified by lemma K4.')
+
 NOT_APPLICABLE = [
     {'property_id': p, 'reason': 'check under construction in this round (see DESIGN.md section 4); not claimed yet'}
-    for p in ['C02', 'C03', 'C04', 'C05', 'C07', 'C08', 'C09', 'C10', 'C11', 'C12', 'C13', 'C14', 'C16', 'C17',
+    for p in ['C03', 'C05', 'C07', 'C08', 'C09', 'C11', 'C12', 'C13', 'C14', 'C17',
               'C18', 'C19', 'C20']
 ]
 
